@@ -462,7 +462,13 @@ func (vfs *RoFS) Stat(name string) (fs.FileInfo, error) {
 
 // Sub returns an FS corresponding to the subtree rooted at dir.
 func (vfs *RoFS) Sub(dir string) (avfs.VFS, error) {
-	return vfs.baseFS.Sub(dir)
+	subFS, err := vfs.baseFS.Sub(dir)
+	if err != nil {
+		return nil, err
+	}
+
+	// the subtree must be read only too.
+	return New(subFS), nil
 }
 
 // Symlink creates newname as a symbolic link to oldname.
